@@ -142,6 +142,18 @@ fn add_bystander(ms: &mut ModuleSet, n: usize) {
             ty: Ty::Enumerated(EnumDef { root: vec![(format!("zz-first{j}"), None), (vname.clone(), None)], ext: None }),
         });
     }
+    // dummy references of a parameterized type are local to it: a bystander's type and value
+    // spelled like them must not be taken for the actual parameters
+    let raw = |text: &str, kind: &str| {
+        let toks: Vec<String> = text.split_whitespace().map(|t| t.to_string()).collect();
+        Item::Raw { name: toks[0].clone(), toks, kind: kind.to_string() }
+    };
+    ms.modules[0].items.push(raw("Zp-Wrap { ElemType , INTEGER : upper-dummy } ::= SEQUENCE { item ElemType , more SET OF ElemType , count INTEGER ( 0 .. upper-dummy ) }", "template"));
+    ms.modules[0].items.push(raw("Zp-Inst ::= Zp-Wrap { BOOLEAN , 7 }", "instance"));
+    ms.modules[0].items.push(raw("Zp-Rng { INTEGER : upper-dummy } ::= INTEGER ( 0 .. upper-dummy )", "template"));
+    ms.modules[0].items.push(raw("Zp-RngI ::= Zp-Rng { 5 }", "instance"));
+    by.items.push(raw("ElemType ::= OCTET STRING", "clash-type"));
+    by.items.push(raw("upper-dummy INTEGER ::= 99", "clash-value"));
     ms.modules.push(by);
 }
 
